@@ -31,7 +31,7 @@ COUNTS = {'quick': 220, 'thorough': 6000}
 BUDGET = {'quick': 110, 'thorough': 1500}
 TIMEOUT = 240
 SHRINK_LISTS = [['ops']]
-EXPECTED_PROBES = ['set_alter_same', 'coeff_checked', 'alter', 'group_alter', 'alter_vin', 'set', 'reset', 'export_json', 'export_xlsx', 'reload',
+EXPECTED_PROBES = ['alter_base_reset', 'set_alter_same', 'coeff_checked', 'alter', 'group_alter', 'alter_vin', 'set', 'reset', 'export_json', 'export_xlsx', 'reload',
                    'time_const_altered', 'shared_time_const_altered', 'residual_effect_checked', 'non_unit_bases', 'export_after_earlier_export']
 RULE = ('plan = (case, seeded base scaling, seeded op history over three lifecycle phases); non-trivial = at least one alteration '
         'followed by an observation (coefficient check, export, residual, time constant); distinct = (case, op-kind sequence, base scaling)')
@@ -61,7 +61,7 @@ def elaborate(stub):
     case = r.choice(CASES)
     o = stream(seed, 'ops')
     ops = []
-    phase_ops = ['alter', 'alter', 'alter', 'group_alter', 'alter_vin', 'set', 'set_alter_same', 'export_json', 'export_xlsx', 'reload', 'check']
+    phase_ops = ['alter', 'alter', 'alter', 'group_alter', 'alter_vin', 'set', 'set_alter_same', 'alter_base_reset', 'export_json', 'export_xlsx', 'reload', 'check']
     for phase in ('setup', 'pflow', 'tds'):
         if phase == 'pflow':
             ops.append({'op': 'pflow'})
@@ -325,6 +325,30 @@ def execute(plan):
                     v.append(V('alter_raises', '[%s] %s.%s idx=%r raised %s: %s' % (where, name, pn, idx, type(e).__name__, str(e)[:100]),
                                what=k, type=type(e).__name__))
                     break
+                ref.check(where, v, probes)
+            elif k == 'alter_base_reset':
+                # a device base (Sn) is altered and the system is set up again (reset): every flagged quantity of the device
+                # must then sit on the *new* base
+                if ss.TDS.initialized:
+                    continue
+                cands = sorted(n_ for n_, m_ in ss.models.items() if m_.n and 'Sn' in m_.num_params and 'Sn' not in m_.params_ext
+                               and (n_, 'Sn') in ref.vin and any(any(p_.property.get(kk) for kk in KINDS) for p_ in m_.num_params.values()))
+                if not cands:
+                    continue
+                name = cands[int(op['pick'] * len(cands)) % len(cands)]
+                mdl = ss.models[name]
+                uid = int(op['pick2'] * mdl.n) % mdl.n
+                new = float(ref.vin[(name, 'Sn')][uid]) * op['factor']
+                try:
+                    mdl.alter('Sn', mdl.idx.v[uid], new)
+                    ref.vin[(name, 'Sn')][uid] = new
+                    ss.reset()
+                    ref.set_marks.clear()
+                except Exception as e:
+                    v.append(V('alter_raises', '[%s] %s.Sn altered then reset raised %s: %s' % (where, name, type(e).__name__, str(e)[:100]),
+                               what=k, type=type(e).__name__))
+                    break
+                probes['alter_base_reset'] = probes.get('alter_base_reset', 0) + 1
                 ref.check(where, v, probes)
             elif k == 'check':
                 ref.check(where, v, probes)
